@@ -136,13 +136,13 @@ def drun (r : RState) (ops : List DOp) : RState := ops.foldl dstep r
                    reset / amend, carried over by the pre-commit checkpoint), git lists it as added: it is in the note
     amendStepWs    rewrite_authorship_after_commit_amend: `from_working_log_for_commit(original)` = working log, gaps
                    filled by blame at the replaced commit (no lower bound), carried over to the amended content
-    resetStepWs    reconstruct_working_log_after_reset since /repo c73c4deb: `from_working_log_for_commit(old HEAD,
+    resetStepWs    reconstruct_working_log_after_reset since /repo df029dce: `from_working_log_for_commit(old HEAD,
                    blame_start = target)` = working log, gaps filled by `git blame target..old`, and for what is still
                    open the target's own attribution `new_for_base_commit(target, blame_start = target)` =
                    `git blame target^!`. A bounded blame reports an older line under the BOUNDARY commit (the
                    target, resp. the target's parent) and the overlay reads that commit's note: the lines of the
                    `k` undone commits, of the target and of the target's parent keep their session
-                   (`blame` over the newest `k + 2` commits), older lines are nobody's. Before c73c4deb
+                   (`blame` over the newest `k + 2` commits), older lines are nobody's. Before df029dce
                    `target..target` blamed the working tree and the target's attribution came out empty. -/
 
 /-- `xs` without the ids git reports in another whitespace form -/
@@ -185,12 +185,22 @@ def boundedAuthor (k : Nat) (hum : List Nat) (st : State) (y : Nat) : Author :=
   | none =>
     if st.head.contains y && !hum.contains y then blame (st.log.take (k + 2)) (st.notes.take (k + 2)) y else none
 
+/-- does the reset's reconstruction look at this file at all? `reconstruct_working_log_after_reset` takes the files
+    that differ between the target and the old HEAD and that a note of an undone commit lists
+    (`filter_pathspecs_to_ai_touched_files`), plus the files of the old working log (checkpoint entries, INITIAL).
+    Every other file keeps no claim: its working log is deleted with the old HEAD's. (For `resetStep` the question
+    does not arise: a line of such a file that the target lacks is not in the old HEAD either, so only the
+    working log could credit it.) -/
+def resetConsiders (k : Nat) (st : State) : Bool :=
+  (st.head != (undoN k st).head && (st.notes.take k).any (fun n => !n.isEmpty)) ||
+    !st.entries.isEmpty || !st.initial.isEmpty
+
 def resetStepWs (k : Nat) (soft : Bool) (re hum : List Nat) (st : State) : State :=
   let st' := undoN k st
   { st' with index := if soft then st.index else st'.head, entries := [],
              initial := (enum1 st.work).filterMap (fun p =>
                if st'.head.contains p.2 then
-                 (if re.contains p.2 then (boundedAuthor k hum st p.2).map (fun s => (p.1, s)) else none)
+                 (if re.contains p.2 && resetConsiders k st then (boundedAuthor k hum st p.2).map (fun s => (p.1, s)) else none)
                else (mergedAuthorWs hum st p.2).map (fun s => (p.1, s))),
              initSnap := st.work }
 
